@@ -30,7 +30,13 @@ pub fn path_of_entry(root: &Path, entry: DirEntry) -> PathBuf {
     path.push(root);
     path.extend(id.split('.'));
     if let Some(ext) = ext {
-        path.set_extension(ext);
+        if id.is_empty() {
+            // There is no file name to give an extension to: stay inside the
+            // root instead of renaming the root itself.
+            path.push(format!(".{ext}"));
+        } else {
+            path.set_extension(ext);
+        }
     }
 
     path
